@@ -290,8 +290,11 @@ inductive SessionBoundary (K : Crypto) : Keys → Keys → Prop
       MAC history and reveal queue stay (until the next key exchange carries the MAC keys over) -/
   | endS (k : Keys) :
       SessionBoundary K k { k with ourCur := none, ourPrev := none, theirCur := k.theirCur.map (fun _ => 0) }
-  /-- `processDisconnectedTLV`: everything is wiped -/
-  | disc (k : Keys) : SessionBoundary K k {}
+  /-- `processDisconnectedTLV` (repaired code): DH keys, key ids, counters and MAC history are wiped; the MAC keys
+      of the session that ends (reveal queue, then the keys of its MAC history) stay in the reveal queue, to be
+      revealed by the first data message of the next conversation -/
+  | disc (k : Keys) :
+      SessionBoundary K k { oldMACKeys := k.oldMACKeys ++ k.macHistory.map (fun u : MacUse => u.key) }
 
 /-- histories of the key context: steps and session boundaries; the index counts the boundaries -/
 inductive KHist (K : Crypto) : Nat → Keys → Keys → Prop
@@ -1183,7 +1186,8 @@ inductive KHistE (K : Crypto) : Keys → Keys → Prop
   | step {k k1 k2 : Keys} : KHistE K k k1 → KStep' K k1 k2 → KHistE K k k2
   | endS {k k1 : Keys} : KHistE K k k1 →
       KHistE K k { k1 with ourCur := none, ourPrev := none, theirCur := k1.theirCur.map (fun _ => 0) }
-  | disc {k k1 : Keys} : KHistE K k k1 → KHistE K k {}
+  | disc {k k1 : Keys} : KHistE K k k1 →
+      KHistE K k { oldMACKeys := k1.oldMACKeys ++ k1.macHistory.map (fun u : MacUse => u.key) }
 
 theorem KSteps'.toHistE {K k k'} (h : KSteps' K k k') : KHistE K k k' := by
   induction h with
@@ -1324,7 +1328,11 @@ theorem khist_queue_provenance {K n k0 k} (h : KHist K n k0 k) : ∀ b ∈ k.old
       · exact (ih b hb).extend (.ofBoundary (.ake k1 ak r hc))
       · exact .inr ⟨_, _, k1, hh, .ofBoundary (.ake k1 ak r hc), u, hu, rfl⟩
     | endS => exact (ih b hb).extend (.ofBoundary (.endS k1))
-    | disc => exact nomatch hb
+    | disc =>
+      simp only [List.mem_append, List.mem_map] at hb
+      rcases hb with hb | ⟨u, hu, rfl⟩
+      · exact (ih b hb).extend (.ofBoundary (.disc k1))
+      · exact .inr ⟨_, _, k1, hh, .ofBoundary (.disc k1), u, hu, rfl⟩
 
 /-! ## 11. the API level -/
 
@@ -1493,7 +1501,7 @@ example : SessionBoundary Crypto.dummy Keys.example1
     ⟨rfl, rfl, rfl⟩
 example : SessionBoundary Crypto.dummy Keys.example1
     { Keys.example1 with ourCur := none, ourPrev := none, theirCur := some 0 } := .endS _
-example : SessionBoundary Crypto.dummy Keys.example1 {} := .disc _
+example : SessionBoundary Crypto.dummy Keys.example1 { oldMACKeys := [[0xCC], [0xAA], [0xBB]] } := .disc _
 /-- `End` on a fresh conversation: one boundary, as `apiCall_keys_refine` says -/
 example (K : Crypto) : ∃ r s', runM (ApiCall.endSession.run K) ⟨{}, {}, [], []⟩ = .ok (r, s') ∧
     KHist K 1 ({} : Conv).keys s'.conv.keys :=
